@@ -740,7 +740,8 @@ class VarsManager(object):
                     self.variables[name_r[:-1] + "i"].assign_add(np.pi)
             else:
                 p.assign_add(np.pi)
-        p.assign(self._std_polar_angle(p))
+        if p < -np.pi or p >= np.pi:
+            p.assign(self._std_polar_angle(p))
 
     def std_polar_all(self):  # std polar expression: r>0, -pi<p<pi
         """
